@@ -119,16 +119,19 @@ def op(conn, spec):
 
 
 class Caller(threading.Thread):
-    def __init__(self, name, fn):
+    def __init__(self, name, fn, at_end=None):
         super().__init__(name=name, daemon=True)
-        self.fn, self.outcome, self.t_end = fn, None, None
+        self.fn, self.outcome, self.t_end, self.at_end, self.snapshot = fn, None, None, at_end, None
 
     def run(self):
         try:
             v = self.fn()
-            self.outcome = ["ok", [x.decode("latin1") for x in v] if isinstance(v, tuple) else v]
+            outcome = ["ok", [x.decode("latin1") for x in v] if isinstance(v, tuple) else v]
         except BaseException as e:  # noqa: BLE001
-            self.outcome = ["exc", type(e).__name__, isinstance(e, ScrapliException), str(e)[:120]]
+            outcome = ["exc", type(e).__name__, isinstance(e, ScrapliException), str(e)[:120]]
+        if self.at_end is not None:
+            self.snapshot = self.at_end()      # the state of the world at the moment THIS caller learns how its operation ended
+        self.outcome = outcome
         self.t_end = time.time()
 
 
@@ -157,6 +160,8 @@ def main(sc):
     out["timeouts"] = table
     if sc.get("waiter"):
         return waiter_scenario(sc, conn, t, lock, out)
+    if sc.get("late"):
+        return late_scenario(sc, conn, t, lock, out)
     hk, hwhen = sc["hung"]
     hspec = {"gp": ["gp"], "si": ["si", MARK], "sir": ["sir", MARK], "int": ["int", ["show c0e0", MARK]]}[hk]
     qspecs = []
@@ -192,6 +197,48 @@ def main(sc):
     out["closers"] = list(t.closers)
     somebody_stuck = hung.is_alive() or any(c.is_alive() for c in queued)
     out["phase2"] = phase2(conn, t, lock, slack) if not somebody_stuck and not lock.locked() else None
+    return out
+
+
+def late_scenario(sc, conn, t, lock, out):
+    """Settings.NO_TERMINATE_ON_TIMEOUT = True (the connection survives a timeout, nothing wakes the worker) and a device that
+    answers LATER than timeout_ops.  Observed at the moment the caller gets its ScrapliTimeout (event order, not wall clock):
+    is the channel lock still held, is a pool worker of that call still alive; afterwards: does the ended operation's worker
+    still use the transport; and a next operation issued right after must get its own output."""
+    from scrapli.settings import Settings
+    Settings.NO_TERMINATE_ON_TIMEOUT = bool(sc.get("no_terminate", True))
+    tmo, slack = sc["timeout_ops"], sc.get("slack", 8.0)
+    hk = sc["hung"][0]
+    hspec = {"si": ["si", MARK], "sir": ["sir", MARK], "int": ["int", ["show c0e0", MARK]]}[hk]
+
+    def snap():
+        return {"lock_locked": lock.locked(), "ncalls": len(t.owners),
+                "pool_threads_alive": sorted(x.name for x in threading.enumerate() if x.name.startswith("ThreadPoolExecutor") and x.is_alive())}
+
+    hung = Caller("hung", op(conn, hspec), at_end=snap)
+    t.arm(("delay", sc["a_delay"]))
+    t_h = time.time()
+    hung.start()
+    hung.join(tmo + sc["a_delay"] + slack)
+    out["lock_held_while_hung"] = True
+    out["late_answer_armed"] = bool(t.delayed)
+    out["hung"] = report(hung, t_h)
+    out["at_exception"] = hung.snapshot
+    nxt_spec = ["si", "show c1o0"]
+    nxt = Caller("queued0", op(conn, nxt_spec))          # its timeout_ops is T_BIG: it only has to wait for what the code makes it wait for
+    t_n = time.time()
+    nxt.start()
+    nxt.join(sc["a_delay"] + slack)
+    out["queued"] = [dict(report(nxt, t_n), spec=nxt_spec)]
+    time.sleep(0.05)
+    n0 = (hung.snapshot or {}).get("ncalls", 0)
+    worker = t.owners[n0 - 1] if n0 else None
+    out["ended_op_worker"] = worker
+    out["ended_op_calls_after_exception"] = sum(1 for o in t.owners[n0:] if o == worker)
+    out["lock_locked_after"] = lock.locked()
+    out["transport_alive_after"] = t.isalive()
+    out["closers"] = list(t.closers)
+    out["phase2"] = None
     return out
 
 
